@@ -5,6 +5,11 @@ Open Scope N_scope.
 
 Ltac Zify.zify_post_hook ::= Z.div_mod_to_equations.
 
+(* linear-time list reversal for the executable model (List.rev is quadratic) *)
+Definition frev {A} (l : list A) : list A := rev_append l [].
+Lemma frev_rev {A} (l : list A) : frev l = rev l.
+Proof. unfold frev. symmetry. apply rev_alt. Qed.
+
 Definition b2n (b : bool) : N := if b then 1 else 0.
 
 Definition val (l : list bool) : N := fold_left (fun a b => 2 * a + b2n b) l 0.
